@@ -187,6 +187,10 @@ class Rig(object):
             return False
         if p.from_service_user.items or p.dimse_gen is not None or p.event:
             return True
+        if self.task.kind in ('sleep', 'preempt'):
+            # the provider thread is in the middle of something: a line-level pre-emption
+            # (or a park inside one) suspended it between two seams
+            return True
         ps = self.prov_sock
         if ps is not None and not ps.closed and p.dul_socket is not None:
             if ps.rx.rcvbuf:
